@@ -85,4 +85,247 @@ theorem items_nonEmpty {i : Option (OrderedMap.OM T Unit)} {l : List T} (h : RI 
     show (OrderedMap.oldest om).isSome = !l.isEmpty
     rw [oldest_sim h]; cases l <;> simp [unitPairs]
 
+/-! ### lifting the `items` simulation through heaps, parent chains and operation sequences -/
+
+section lift
+variable {T : Type} (I J : PSItems T) (R : I.I → J.I → Prop)
+
+/-- what the lifting needs from the two `items` implementations -/
+structure ItemsSim : Prop where
+  nil : R I.nil J.nil
+  contains : ∀ i j, R i j → ∀ x, I.contains i x = J.contains j x
+  add : ∀ i j, R i j → ∀ x, I.contains i x = false → R (I.add i x) (J.add j x)
+  list : ∀ i j, R i j → I.list i = J.list j
+  nonEmpty : ∀ i j, R i j → I.nonEmpty i = J.nonEmpty j
+
+def OR (o : I.Obj) (p : J.Obj) : Prop := o.parent = p.parent ∧ R o.items p.items
+abbrev HR (h : I.Heap) (k : J.Heap) : Prop := List.Forall₂ (OR I J R) h k
+
+variable {I J R}
+
+theorem HR.getElem? {h : I.Heap} {k : J.Heap} (hr : HR I J R h k) (a : Nat) :
+    (h[a]? = none ∧ k[a]? = none) ∨ ∃ o p, h[a]? = some o ∧ k[a]? = some p ∧ OR I J R o p := by
+  induction hr generalizing a with
+  | nil => left; simp
+  | cons hop _ ih =>
+    cases a with
+    | zero => right; exact ⟨_, _, by simp, by simp, hop⟩
+    | succ a => simpa using ih a
+
+theorem HR.set {h : I.Heap} {k : J.Heap} (hr : HR I J R h k) (a : Nat) {o : I.Obj} {p : J.Obj}
+    (hop : OR I J R o p) : HR I J R (h.set a o) (k.set a p) := by
+  induction hr generalizing a with
+  | nil => simp
+  | cons hop' _ ih =>
+    cases a with
+    | zero => exact List.Forall₂.cons hop ‹_›
+    | succ a => exact List.Forall₂.cons hop' (ih a)
+
+theorem chain_sim {h : I.Heap} {k : J.Heap} (hr : HR I J R h k) (fuel : Nat) (s : Option Nat) :
+    List.Forall₂ (OR I J R) (PSItems.chain I h fuel s) (PSItems.chain J k fuel s) := by
+  induction fuel generalizing s with
+  | zero => simp [PSItems.chain]
+  | succ n ih =>
+    cases s with
+    | none => simp [PSItems.chain]
+    | some a =>
+      rcases hr.getElem? a with ⟨e1, e2⟩ | ⟨o, p, e1, e2, hop⟩
+      · simp [PSItems.chain, e1, e2]
+      · simp only [PSItems.chain, e1, e2]
+        refine List.Forall₂.cons hop ?_
+        rw [hop.1]; exact ih _
+
+theorem chainOf_sim {h : I.Heap} {k : J.Heap} (hr : HR I J R h k) (s : Option Nat) :
+    List.Forall₂ (OR I J R) (PSItems.chainOf I h s) (PSItems.chainOf J k s) := by
+  unfold PSItems.chainOf
+  rw [hr.length_eq]; exact chain_sim hr _ s
+
+theorem any_forall₂ {α β : Type} {r : α → β → Prop} {f : α → Bool} {g : β → Bool}
+    (hfg : ∀ a b, r a b → f a = g b) {l : List α} {m : List β} (h : List.Forall₂ r l m) :
+    l.any f = m.any g := by
+  induction h with
+  | nil => rfl
+  | cons hab _ ih => simp [List.any_cons, hfg _ _ hab, ih]
+
+theorem flatMap_forall₂ {α β γ : Type} {r : α → β → Prop} {f : α → List γ} {g : β → List γ}
+    (hfg : ∀ a b, r a b → f a = g b) {l : List α} {m : List β} (h : List.Forall₂ r l m) :
+    l.flatMap f = m.flatMap g := by
+  induction h with
+  | nil => rfl
+  | cons hab _ ih => simp [List.flatMap_cons, hfg _ _ hab, ih]
+
+variable (S : ItemsSim I J R)
+include S
+
+theorem setContains_sim {h : I.Heap} {k : J.Heap} (hr : HR I J R h k) (s : Option Nat) (x : T) :
+    PSItems.setContains I h s x = PSItems.setContains J k s x :=
+  any_forall₂ (fun _ _ hop => S.contains _ _ hop.2 x) (chainOf_sim hr s)
+
+theorem forEach_sim {h : I.Heap} {k : J.Heap} (hr : HR I J R h k) (s : Option Nat) :
+    PSItems.forEach I h s = PSItems.forEach J k s :=
+  flatMap_forall₂ (fun _ _ hop => S.list _ _ hop.2) (chainOf_sim hr s)
+
+theorem isEmpty_sim {h : I.Heap} {k : J.Heap} (hr : HR I J R h k) (s : Option Nat) :
+    PSItems.isEmpty I h s = PSItems.isEmpty J k s := by
+  unfold PSItems.isEmpty
+  rw [any_forall₂ (fun _ _ hop => S.nonEmpty _ _ hop.2) (chainOf_sim hr s)]
+
+theorem newSet_sim {h : I.Heap} {k : J.Heap} (hr : HR I J R h k) (parent : Option Nat) :
+    HR I J R (PSItems.newSet I h parent).1 (PSItems.newSet J k parent).1 ∧
+      (PSItems.newSet I h parent).2 = (PSItems.newSet J k parent).2 := by
+  refine ⟨?_, hr.length_eq⟩
+  show List.Forall₂ _ (h ++ _) (k ++ _)
+  exact List.rel_append hr (List.Forall₂.cons ⟨rfl, S.nil⟩ List.Forall₂.nil)
+
+/-- both fail (nil-pointer dereference) or both succeed with related heaps -/
+def OptHR : Option I.Heap → Option J.Heap → Prop
+  | none, none => True
+  | some h, some k => HR I J R h k
+  | _, _ => False
+
+theorem setAdd_sim {h : I.Heap} {k : J.Heap} (hr : HR I J R h k) (s : Option Nat) (x : T) :
+    OptHR (R := R) (PSItems.setAdd I h s x) (PSItems.setAdd J k s x) := by
+  unfold PSItems.setAdd
+  rw [← setContains_sim S hr s x]
+  by_cases hc : PSItems.setContains I h s x = true
+  · simp only [hc, if_true]; exact hr
+  · simp only [hc]
+    cases s with
+    | none => trivial
+    | some a =>
+      rcases hr.getElem? a with ⟨e1, e2⟩ | ⟨o, p, e1, e2, hop⟩
+      · simp only [e1, e2]; trivial
+      · simp only [e1, e2]
+        have hown : I.contains o.items x = false := by
+          have hc' : PSItems.setContains I h (some a) x = false := by simpa using hc
+          unfold PSItems.setContains PSItems.chainOf at hc'
+          simp only [PSItems.chain, e1, List.any_cons, Bool.or_eq_false_iff] at hc'
+          exact hc'.1
+        exact hr.set a ⟨hop.1, S.add _ _ hop.2 x hown⟩
+
+theorem addIntersection_sim {h : I.Heap} {k : J.Heap} (hr : HR I J R h k) (s a b : Option Nat) :
+    OptHR (R := R) (PSItems.addIntersection I h s a b) (PSItems.addIntersection J k s a b) := by
+  unfold PSItems.addIntersection
+  rw [← forEach_sim S hr a]
+  have gen : ∀ (l : List T) (acc1 : Option I.Heap) (acc2 : Option J.Heap), OptHR (R := R) acc1 acc2 →
+      OptHR (R := R)
+        (l.foldl (fun acc x => acc.bind (fun h' => if PSItems.setContains I h' b x then PSItems.setAdd I h' s x else some h')) acc1)
+        (l.foldl (fun acc x => acc.bind (fun h' => if PSItems.setContains J h' b x then PSItems.setAdd J h' s x else some h')) acc2) := by
+    intro l
+    induction l with
+    | nil => intro _ _ h; exact h
+    | cons x t ih =>
+      intro acc1 acc2 hacc
+      simp only [List.foldl_cons]
+      apply ih
+      cases acc1 <;> cases acc2 <;> simp only [OptHR] at hacc
+      · trivial
+      · rename_i h' k'
+        simp only [Option.bind_some]
+        rw [← setContains_sim S hacc b x]
+        split
+        · exact setAdd_sim S hacc s x
+        · exact hacc
+  exact gen _ _ _ hr
+
+/-- states: related heaps, equal registers -/
+def SR (st : I.State) (su : J.State) : Prop := HR I J R st.heap su.heap ∧ st.regs = su.regs
+
+theorem step_sim {st : I.State} {su : J.State} (h : SR (R := R) st su) (op : PSOp T) :
+    SR (R := R) (I.step st op).1 (J.step su op).1 ∧ (I.step st op).2 = (J.step su op).2 := by
+  obtain ⟨h1, r1⟩ := st
+  obtain ⟨h2, r2⟩ := su
+  obtain ⟨hr, hregs⟩ := h
+  simp only at hr hregs
+  subst hregs
+  cases op with
+  | mk t parent =>
+    have := newSet_sim S hr (parent.bind r1)
+    exact ⟨⟨this.1, congrArg (fun a => Regs.put r1 t (some a)) this.2⟩, rfl⟩
+  | clone t r =>
+    have := newSet_sim S hr (r1 r)
+    exact ⟨⟨this.1, congrArg (fun a => Regs.put r1 t (some a)) this.2⟩, rfl⟩
+  | add r x =>
+    have := setAdd_sim S hr (r1 r) x
+    simp only [PSItems.step]
+    cases e1 : PSItems.setAdd I h1 (r1 r) x <;> cases e2 : PSItems.setAdd J h2 (r1 r) x <;>
+      rw [e1, e2] at this <;> simp only [OptHR] at this
+    · exact ⟨⟨hr, rfl⟩, rfl⟩
+    · exact ⟨⟨this, rfl⟩, rfl⟩
+  | has r x =>
+    refine ⟨⟨hr, rfl⟩, ?_⟩
+    show PSObs.bool _ = PSObs.bool _
+    rw [setContains_sim S hr]
+  | each r =>
+    refine ⟨⟨hr, rfl⟩, ?_⟩
+    show PSObs.items _ = PSObs.items _
+    rw [forEach_sim S hr]
+  | eachErr r stop =>
+    refine ⟨⟨hr, rfl⟩, ?_⟩
+    show PSObs.itemsErr (visitUntil stop (PSItems.forEach I h1 (r1 r))).2 _ = PSObs.itemsErr (visitUntil stop (PSItems.forEach J h2 (r1 r))).2 _
+    rw [forEach_sim S hr]
+  | addInter r a b =>
+    have := addIntersection_sim S hr (r1 r) (a.bind r1) (b.bind r1)
+    simp only [PSItems.step]
+    cases e1 : PSItems.addIntersection I h1 (r1 r) (a.bind r1) (b.bind r1) <;>
+      cases e2 : PSItems.addIntersection J h2 (r1 r) (a.bind r1) (b.bind r1) <;>
+      rw [e1, e2] at this <;> simp only [OptHR] at this
+    · exact ⟨⟨hr, rfl⟩, rfl⟩
+    · exact ⟨⟨this, rfl⟩, rfl⟩
+  | isEmpty r =>
+    refine ⟨⟨hr, rfl⟩, ?_⟩
+    show PSObs.bool _ = PSObs.bool _
+    rw [isEmpty_sim S hr]
+
+theorem run_sim {st : I.State} {su : J.State} (h : SR (R := R) st su) (ops : List (PSOp T)) :
+    I.run st ops = J.run su ops := by
+  induction ops generalizing st su with
+  | nil => rfl
+  | cons op ops ih =>
+    have := step_sim S h op
+    simp only [PSItems.run, this.2, ih this.1]
+
+omit S in
+theorem init_sim : SR (R := R) I.init J.init := ⟨List.Forall₂.nil, rfl⟩
+
+end lift
+
+/-- the ordered-map `items` field simulates the plain list -/
+theorem model_itemsSim {T : Type} [DecidableEq T] :
+    ItemsSim (PersistentSet.items T) (Verif.Spec.DS.PS.items T) (RI (T := T)) :=
+  ⟨rfl, fun _ _ h => items_contains h, fun _ _ h => items_add h, fun _ _ h => items_list h,
+    fun _ _ h => items_nonEmpty h⟩
+
+
+/-! ### the spec machine in closed form -/
+
+theorem spec_contains {T : Type} [DecidableEq T] (h : (Verif.Spec.DS.PS.items T).Heap) (s : Option Nat) (x : T) :
+    PSItems.setContains (Verif.Spec.DS.PS.items T) h s x =
+      (PSItems.forEach (Verif.Spec.DS.PS.items T) h s).contains x := by
+  unfold PSItems.setContains PSItems.forEach
+  generalize PSItems.chainOf (Verif.Spec.DS.PS.items T) h s = c
+  induction c with
+  | nil => rfl
+  | cons o t ih =>
+    rw [List.any_cons, List.flatMap_cons, ih]
+    obtain ⟨par, (its : List T)⟩ := o
+    show (its.contains x || _) = (its ++ _).contains x
+    rw [List.contains_eq_mem, List.contains_eq_mem, List.contains_eq_mem]
+    simp only [List.mem_append, Bool.decide_or]
+
+theorem spec_isEmpty {T : Type} [DecidableEq T] (h : (Verif.Spec.DS.PS.items T).Heap) (s : Option Nat) :
+    PSItems.isEmpty (Verif.Spec.DS.PS.items T) h s =
+      (PSItems.forEach (Verif.Spec.DS.PS.items T) h s).isEmpty := by
+  unfold PSItems.isEmpty PSItems.forEach
+  generalize PSItems.chainOf (Verif.Spec.DS.PS.items T) h s = c
+  induction c with
+  | nil => rfl
+  | cons o t ih =>
+    rw [List.any_cons, List.flatMap_cons, Bool.not_or, ih]
+    obtain ⟨par, (its : List T)⟩ := o
+    show (!(!its.isEmpty) && _) = (its ++ _).isEmpty
+    cases its with
+    | nil => simp
+    | cons a l => rfl
+
 end Verif.Proofs.DS.PS
